@@ -177,7 +177,6 @@ Proof. exact (@fillna_refines). Qed.
 Print Assumptions C03_fillna_refines_when_fits.
 
 Theorem C03_dropna_keep_refines : forall (A : Type) (na : A -> bool) (cond : list bool -> bool) (t : tb A),
-  (forall b, t = [b] -> b_1d b = false) ->
   M_dropna_keep_columns na cond t = S_dropna_keep_columns na cond (flatten t).
 Proof. exact (@dropna_keep_refines). Qed.
 Print Assumptions C03_dropna_keep_refines.
